@@ -292,7 +292,11 @@ def make_p0(cfg, L, d, cyclic):
         return None
     if p["kind"] == "rand":
         qu.seed_rand(int(p["seed"]))
-        return Q.MPS_rand_state(L, int(p["bond"]), phys_dim=d, dtype=p["dtype"], cyclic=cyclic)
+        p0 = Q.MPS_rand_state(L, int(p["bond"]), phys_dim=d, dtype=p["dtype"], cyclic=cyclic)
+        if p.get("exponent"):
+            # the public stored prefactor 10**exponent of a tensor network: the same ray, a legal initial state
+            p0.exponent = float(p["exponent"])
+        return p0
     if p["kind"] == "comp":
         rng = np.random.default_rng(int(p["seed"]))
         bits = [int(x) for x in rng.integers(0, d, size=L)]
@@ -364,6 +368,7 @@ def prepare(case):
     r.p0_bond = int(p0.max_bond()) if p0 is not None else int(as_seq(bd0)[0])
     r.mpo_real_any = any(not np.iscomplexobj(t.data) for t in ham)
     r.p0_complex = bool(p0 is not None and any(np.iscomplexobj(t.data) for t in p0))
+    r.p0_exponent = bool(p0 is not None and float(p0.exponent) != 0.0)
     r.dense_opt = (cfg.get("opts") or {}).get("local_eig_ham_dense")
     r.stage_ends = []
     r.converged = None
@@ -410,7 +415,7 @@ def run_solve(r, stg):
             raise Reject("ArpackNoConvergence at a user-tightened local_eig_tol")
         raise Violation("local-eigensolve-failed", bsz=r.bsz, alt_expand_planned=alt, which=r.which, msg=str(e)[:80])
     n1 = len(dm.energies)
-    if not (1 <= n1 - n0 <= skw["max_sweeps"]):
+    if not (min(1, skw["max_sweeps"]) <= n1 - n0 <= skw["max_sweeps"]):
         raise Violation("sweep-count", got=n1 - n0, max_sweeps=skw["max_sweeps"])
     seq = skw.get("sweep_sequence") or dm.opts["default_sweep_sequence"]
     for k in range(n1 - n0):
@@ -493,6 +498,11 @@ def linop_mixed(r):
     return bool(linop_possible(r) and r.mpo_real_any and (r.complex_ham or state_complex))
 
 
+def shrink_before(r, k):
+    """One-site sweep k is asked for a cap below what the state already carries (decreasing schedule / larger p0)."""
+    return bool(r.bsz == 1 and r.caps[k] < max(r.caps[:k] + [r.p0_bond]))
+
+
 def untruncated_sweep(r, k):
     if r.bsz == 1:
         return True
@@ -558,7 +568,7 @@ def s_ham(draw, tier, Lmax=6, pc=50, shift=False, Lmin=3, Lmax3=5):
     S2 = draw(st.sampled_from([1, 1, 1, 2]))
     d = S2 + 1
     hi = Lmax if d == 2 else min(Lmax, Lmax3)
-    L = draw(st.sampled_from([l for l in (3, 4, 4, 5, 5, 6, 6, 7, 8) if Lmin <= l <= hi]))
+    L = draw(st.sampled_from([l for l in (2, 3, 4, 4, 5, 5, 6, 6, 7, 8) if Lmin <= l <= hi]))
     if flavor.startswith("herm_mpo"):
         return {"kind": "herm_mpo", "L": L, "d": d, "bond": draw(st.integers(1, 3)), "seed": draw(A.seeds),
                 "cplx": flavor.endswith("cplx"), "flavor": flavor}
@@ -635,7 +645,7 @@ def s_dmrg_generic(draw, tier, hd, bsz=None, coarse=True):
     form = draw(st.sampled_from(["int", "int", "inc", "any"]))
     if form == "int":
         bond_dims = draw(st.sampled_from(caps + ([1] if coarse and one_in(draw, 4) else [])))
-    elif form == "inc" or bsz == 1:
+    elif form == "inc":
         bond_dims = sorted(draw(st.lists(st.sampled_from(caps), min_size=1, max_size=3)))
     else:
         bond_dims = draw(st.lists(st.sampled_from(caps), min_size=1, max_size=3))
@@ -645,7 +655,8 @@ def s_dmrg_generic(draw, tier, hd, bsz=None, coarse=True):
     else:
         cutoffs = draw(st.sampled_from(cut_pool))
     first_cap = as_seq(bond_dims)[0]
-    p0 = draw(s_p0(d, L, first_cap if bsz == 1 else min(8, full)))
+    # (one-site: mostly a start that fits the first cap, sometimes a larger one)
+    p0 = draw(s_p0(d, L, first_cap if (bsz == 1 and not one_in(draw, 4)) else min(8, full)))
     nst = draw(st.sampled_from([1, 1, 2]))
     stages = []
     left = max_total
@@ -655,7 +666,7 @@ def s_dmrg_generic(draw, tier, hd, bsz=None, coarse=True):
         stg = {"max_sweeps": ms, "tol_rel": draw(st.sampled_from([1e-4, 1e-4, 1e-8, 0.0])),
                "sweep_sequence": draw(st.sampled_from(SWEEPSEQ))}
         if s > 0 and draw(st.booleans()):
-            hi = [c for c in caps if bsz == 2 or c >= max(as_seq(bond_dims))] or [max(as_seq(bond_dims))]
+            hi = [c for c in caps if bsz == 2 or one_in(draw, 3) or c >= max(as_seq(bond_dims))] or [max(as_seq(bond_dims))]
             stg["bond_dims"] = draw(st.sampled_from(hi))
         if s > 0 and one_in(draw, 3):
             stg["cutoffs"] = draw(st.sampled_from(cut_pool))
@@ -680,14 +691,17 @@ def s_dmrg_generic(draw, tier, hd, bsz=None, coarse=True):
     return cfg
 
 
-def s_case_generic(tier, bsz=None, Lmax=None, pc=50, shift=False, coarse=True):
+def s_case_generic(tier, bsz=None, Lmax=None, pc=50, shift=False, coarse=True, Lmin=3, expo=False):
     if Lmax is None:
         Lmax = 6 if tier == "quick" else 8
 
     @st.composite
     def s(draw):
-        hd = draw(s_ham(tier, Lmax=Lmax, pc=pc, shift=shift))
-        return {"ham": hd, "dmrg": draw(s_dmrg_generic(tier, hd, bsz=bsz, coarse=coarse))}
+        hd = draw(s_ham(tier, Lmax=Lmax, pc=pc, shift=shift, Lmin=Lmin))
+        cfg = draw(s_dmrg_generic(tier, hd, bsz=bsz, coarse=coarse))
+        if expo and cfg.get("p0") and cfg["p0"]["kind"] == "rand" and one_in(draw, 3):
+            cfg["p0"]["exponent"] = draw(st.sampled_from([0.5, -0.3, 2.0]))
+        return {"ham": hd, "dmrg": cfg}
 
     return s()
 
@@ -747,7 +761,10 @@ def check_energy_state(r, tol=TOL1, **extra):
         unnorm = bool((fits(r.e_unnorm) and not fits(r.e_norm)) or (fits(r.e_conj_unnorm) and not fits(r.e_conj_norm)))
         raise Violation("energy-state", err=max(err_dense, err_lib), bsz=r.bsz, complex_ham=r.complex_ham, conj_fits=conj_fits,
                         unnormalised=unnorm, which=r.which, E=r.E, expect=r.e_norm, norm2=r.n2, **extra)
-    return max(err_dense, err_lib)
+    # "... in the normalized state it returns": open-boundary DMRG hands back a unit vector
+    if not r.cyclic and not abs(r.n2 - 1.0) <= TOL1:
+        raise Violation("state-not-normalised", norm2=r.n2, bsz=r.bsz, p0_exponent=r.p0_exponent, **extra)
+    return max(err_dense, err_lib, abs(r.n2 - 1.0) if not r.cyclic else 0.0)
 
 
 def run_energy_state(case):
@@ -780,12 +797,10 @@ def run_bounds(case):
     def hook(r, si):
         dm = r.dm
         # (4) bond cap
-        if r.bsz == 2:
-            cap = r.caps[-1]
-        else:
-            cap = max(r.caps + [r.p0_bond])
+        cap = r.caps[-1]  # the cap of the last executed sweep, one- and two-site alike
         if r.max_bond > cap:
-            raise Violation("bond-cap", got=r.max_bond, cap=cap, bsz=r.bsz, stage=si)
+            raise Violation("bond-cap", got=r.max_bond, cap=cap, bsz=r.bsz, stage=si,
+                            shrink_needed=shrink_before(r, len(r.caps) - 1))
         # (2) the energy of the returned state
         o = outside(r.E, r)
         worst[0] = max(worst[0], o)
@@ -804,7 +819,7 @@ def run_bounds(case):
             if o > TOL_BOUND:
                 raise Violation("outside-spectrum", where="sweep", bsz=r.bsz, trunc_sweep=not untruncated_sweep(r, k), excess=o,
                                 which=r.which, sweep=k, alt_after_expand=alt_after_expand(r, k))
-    binding = r.max_bond == (r.caps[-1] if r.bsz == 2 else max(r.caps + [r.p0_bond]))
+    binding = r.max_bond == r.caps[-1]
     return {"nt": nontrivial(r), "err": worst[0], "cls": base_classes(r, case) + (["cap-reached"] if binding else ["cap-slack"])}
 
 
@@ -1043,7 +1058,7 @@ HSEQ = [None, "R", "L", "RL", "RL", "LR", "LR", "RRL"]  # alternating sequences 
 @st.composite
 def s_case_history(draw, tier):
     quick = tier == "quick"
-    hd = draw(s_ham(tier, Lmax=6 if quick else 8, pc=40, Lmin=3, Lmax3=4))
+    hd = draw(s_ham(tier, Lmax=6 if quick else 8, pc=40, Lmin=2, Lmax3=4))
     L = hd["L"]
     d = hd.get("d") or hd["S2"] + 1
     full = d ** (L // 2)
@@ -1057,22 +1072,26 @@ def s_case_history(draw, tier):
         bond_dims = draw(st.sampled_from([full, full, full + 2, [full, full + 1]]))
         cutoffs = draw(st.sampled_from([0.0, 0.0, [0.0, 0.0]])) if bsz == 2 else draw(st.sampled_from(cut_pool))
     else:
-        bond_dims = draw(st.one_of(st.sampled_from(caps), st.lists(st.sampled_from(caps), min_size=1, max_size=3).map(sorted)))
+        bond_dims = draw(st.one_of(st.sampled_from(caps), st.lists(st.sampled_from(caps), min_size=1, max_size=3).map(sorted),
+                                   st.lists(st.sampled_from(caps), min_size=2, max_size=3)))
         cutoffs = draw(st.one_of(st.sampled_from(cut_pool), st.lists(st.sampled_from(cut_pool), min_size=1, max_size=2)))
     first_cap = as_seq(bond_dims)[0]
-    p0 = draw(s_p0(d, L, first_cap if bsz == 1 else min(8, full)))
+    p0 = draw(s_p0(d, L, first_cap if (bsz == 1 and (untrunc or not one_in(draw, 4))) else min(8, full)))
+    if p0 and p0["kind"] == "rand" and one_in(draw, 4):
+        p0["exponent"] = draw(st.sampled_from([0.5, -0.3, 2.0]))
     opts = draw(st.sampled_from([{}, {}, {"local_eig_tol": 1e-10}, {"local_eig_tol": 1e-10}, {"local_eig_ham_dense": True}]))
     calls = []
     for k in range(draw(st.integers(2, 4))):
         if draw(st.sampled_from([True, True, False])):
             # a loose tol with a generous max_sweeps ends by convergence, tol 0.0 / one sweep by exhaustion
             c = {"op": "solve", "tol_rel": draw(st.sampled_from([1e-2, 1e-4, 1e-4, 1e-6, 1e-9, 0.0])),
-                 "max_sweeps": draw(st.sampled_from([1, 2, 3, 4, 6, 6])), "sweep_sequence": draw(st.sampled_from(HSEQ))}
+                 "max_sweeps": 0 if one_in(draw, 12) else draw(st.sampled_from([1, 1, 2, 3, 4, 6, 6])),
+                 "sweep_sequence": draw(st.sampled_from(HSEQ))}
             if k > 0 and one_in(draw, 4):
                 if untrunc:
                     c["bond_dims"] = draw(st.sampled_from([full + 1, full + 3]))
                 else:
-                    hi = [x for x in caps if bsz == 2 or x >= max(as_seq(bond_dims))] or [max(as_seq(bond_dims))]
+                    hi = [x for x in caps if bsz == 2 or one_in(draw, 3) or x >= max(as_seq(bond_dims))] or [max(as_seq(bond_dims))]
                     c["bond_dims"] = draw(st.sampled_from(hi))
             if k > 0 and one_in(draw, 4) and not (untrunc and bsz == 2):
                 c["cutoffs"] = draw(st.sampled_from(cut_pool))
@@ -1139,6 +1158,10 @@ def run_history(case):
         info = dict(call=ci, op=call["op"], bsz=r.bsz, which=r.which, complex_ham=r.complex_ham)
         if call["op"] == "solve":
             n = run_solve(r, call)
+            if n == 0:
+                cls.append("solve(max_sweeps=0)")
+                prev_conv = False
+                continue
             E = dm.energy
             info["canonize"] = True
         else:
@@ -1159,12 +1182,9 @@ def run_history(case):
         if abs(complex(dm.total_energies[-1][-1]) - r.E) > 1e-12 * s:
             raise Violation("bookkeeping", what="reported-is-last-total", **info)
         # (4) bond cap
-        if r.bsz == 2:
-            cap = r.caps[-1]
-        else:
-            cap = max(r.caps + [r.p0_bond])
+        cap = r.caps[-1]
         if r.max_bond > cap:
-            raise Violation("bond-cap", got=r.max_bond, cap=cap, **info)
+            raise Violation("bond-cap", got=r.max_bond, cap=cap, shrink_needed=shrink_before(r, len(r.caps) - 1), **info)
         # (2) every energy recorded by this call lies in the spectrum
         for k in new:
             for x in dm.total_energies[k]:
@@ -1180,6 +1200,10 @@ def run_history(case):
         all_untr = True
         for k in new:
             tots = [complex(x).real for x in dm.total_energies[k]]
+            if shrink_before(r, k):
+                # a one-site run that honours a smaller cap has to truncate before this sweep: no claim across that point
+                prev = None
+                all_untr = False
             if untruncated_sweep(r, k):
                 seq = tots if prev is None else [prev] + tots
                 for j, (a, b) in enumerate(zip(seq, seq[1:])):
@@ -1218,10 +1242,10 @@ SUBCHECKS = [
     SubCheck("ham_reference", run_ham_reference, s_ham_reference, examples=(150, 1500), shards=(1, 2),
              rule="ham.to_dense() == sum of embedded terms from own spin matrices (open + cyclic, overrides replace defaults); "
                   "nt: L>=4 and (complex or site-dependent)"),
-    SubCheck("energy_state_dmrg2", run_energy_state, _q(s_case_generic, bsz=2, pc=30), examples=(36, 250), shards=(2, 4),
+    SubCheck("energy_state_dmrg2", run_energy_state, _q(s_case_generic, bsz=2, pc=30, Lmin=2, expo=True), examples=(36, 250), shards=(2, 4),
              rule="two-site DMRG: after every solve() stage energy == <psi|H|psi>/<psi|psi> (dense) == psi.H@ham.apply(psi) within 1e-6||H||; "
                   "half the Hamiltonians genuinely complex; nt as RULE"),
-    SubCheck("energy_state_dmrg1", run_energy_state, _q(s_case_generic, bsz=1, pc=30), examples=(36, 250), shards=(2, 4),
+    SubCheck("energy_state_dmrg1", run_energy_state, _q(s_case_generic, bsz=1, pc=30, Lmin=2, expo=True), examples=(36, 250), shards=(2, 4),
              rule="one-site DMRG: same clause; nt as RULE"),
     SubCheck("bounds_and_cap", run_bounds, _q(s_case_generic, shift=True), examples=(36, 250), shards=(2, 4),
              rule="lambda_min-1e-8 <= every reported energy <= lambda_max+1e-8 (energy, energies, total_energies) and max_bond <= cap "
